@@ -344,3 +344,12 @@ mod tests {
     */
 }
 
+
+
+/// Loss intervals, most recent first, as (end time, length) (verification builds only).
+#[cfg(uflow_verif)]
+impl LossIntervalQueue {
+    pub fn verif_entries(&self) -> Vec<(u64, u32)> {
+        self.entries.iter().map(|e| (e.end_time_ms, e.length)).collect()
+    }
+}
